@@ -154,10 +154,25 @@ func c07Judge(rule string, objs []*AV) (what string, detail string) {
 			return "Error() of the error returned by NewEvaluator failed", f
 		}
 	}
+	var kept []error // every error value and diagnostic a caller may still hold
+	again := func(when string) (string, string) {
+		for _, e := range kept {
+			if _, f := errorText(e); f != "" {
+				return "Error() of a value returned earlier failed " + when, f
+			}
+		}
+		return "", ""
+	}
 	for _, o := range objs {
 		m := o.GoMap()
 		if ev != nil {
 			ob := observeProcess(ev, m)
+			func() {
+				defer func() { recover() }()
+				if d := ev.LastDebugErr(); d != nil {
+					kept = append(kept, d)
+				}
+			}()
 			switch {
 			case ob.Escaped != "":
 				return "a panic escaped", ob.Escaped
@@ -177,7 +192,15 @@ func c07Judge(rule string, objs []*AV) (what string, detail string) {
 		if _, pesc := parserEvaluate(rule, m); pesc != "" {
 			return "a panic escaped", pesc
 		}
+		if w, d := again("after a later Process call"); w != "" {
+			return w, d
+		}
 	}
+	defer func() {
+		if what == "" {
+			what, detail = again("after Reset")
+		}
+	}()
 	if ev != nil {
 		func() {
 			defer func() {
